@@ -1,4 +1,4 @@
-#!/bin/sh
+#!/bin/bash
 # usage: trydiffs.sh <dir-with-rNN.diff> [props]   -- false-alarm test: apply each diff to a scratch copy, run the checks (in parallel), report anything that fires
 set -u
 DIR=$(realpath "$1"); PROPS=${2:-"C01 C02 C03 C04 C05 C06 C07 C08 C09 C10 C11 C12 C13 C14 C15 C16 C17 C18 C19"}
